@@ -239,6 +239,28 @@ def run(c, chk):
     # ---- R18.6 ---------------------------------------------------------------------------------
     user_object_released(c, chk, ex)
 
+    # ---- R18.10: a value slot that could not be made is not counted -----------------------------------------
+    chk.rule('R18.10', 'cfg_addval() leaves the value count as it was on every path that returns failure (no counted NULL slot for the getters, the printer and the release code to trip over)')
+    from .. import bufsize as _bs
+    av = c.need('cfg_addval')
+    n10 = 0
+    bad10 = None
+    for p in ex.explore(av):
+        if p.end != 'ret' or p.retval != sym.C0:
+            continue
+        n10 += 1
+        cnt = ('fld', ('p', 'opt'), 'cfg_opt_t', 'nvalues')
+        sts = [e for e in p.events if e.kind == 'store' and e.addr == cnt]
+        if sts and _bs.net_counter_change(sts, cnt) != 0:
+            bad10 = bad10 or (p, sts[-1])
+    if bad10 is not None:
+        p, e = bad10
+        chk.fail('R18.10', 'addval-counts-failed-slot', c.where(e.ins), 'cfg_addval() returns failure (%s) with opt->nvalues already increased: the option is left with a slot that is counted '
+                 'but NULL - cfg_opt_getnint(), cfg_print() and cfg_free_value() dereference it' % fp.cond_text(p, 3))
+    elif n10:
+        chk.ok('R18.10', 'cfg_addval: %d failing paths' % n10, 'the value count is unchanged on each')
+    chk.floor('R18.10 failing paths of cfg_addval', n10, 2)
+
     # ---- R18.9: unwinding after a failed allocation releases what the function owns, not what it borrows -------
     from . import c08 as _c08
     chk.rule('R18.9', 'no unwind path releases a context together with the search path it only borrows from the root (the failed call would leave the root with a freed list)')
